@@ -31,4 +31,5 @@ Definition run (op : Z) (arg : V) : V :=
   if op =? 45 then run_eq arg else
   if op =? 46 then run_parse_file arg else
   if op =? 47 then run_nbytes_track arg else
+  if op =? 48 then run_orderedb arg else
   fail EOther.
